@@ -12,7 +12,7 @@ from ..common import sig_key
 from ..probes import PROBES
 
 LEVEL = "exploration"
-RULE = "Nested differentiation expressions: depth 2 and 3 enumerate exhaustively (operator per level from {grad, deriv, elementwise_grad, jacobian, make_vjp+1, make_jvp+1}) x (subset of enclosing variables each inner body mentions) x 3 templates (inner result scaled / inside sin / used twice) with the inner evaluation point depending on enclosing variables; depth 4 and vector-valued inner variables (elementwise bodies, sum-reduced) are sampled; depth 2 (exhaustive) and depth 3 (sampled) additionally with every level evaluated in a worker thread started and joined inside the enclosing traced function, and with array-valued variables at every level (elementwise operator counterparts; inner bodies close over enclosing arrays; reference per component). The depth-2 grid and sampled depth-3 nestings once more in four dialects: every variable read and inner derivative value passed through copy.copy / copy.deepcopy, and every elementary function replaced by a user primitive registered through autograd.extend (all operators) or the deprecated .defvjp / .defgrad methods (reverse operators). Reference: independent symbolic differentiator. Non-trivial iff the symbolic reference is finite and non-zero and the inner body mentions its own variable non-linearly. distinct = distinct (depth, operator sequence, mention masks, template, vector flag)."
+RULE = "Nested differentiation expressions: depth 2 and 3 enumerate exhaustively (operator per level from {grad, deriv, elementwise_grad, jacobian, make_vjp+1, make_jvp+1}) x (subset of enclosing variables each inner body mentions) x 3 templates (inner result scaled / inside sin / used twice) with the inner evaluation point depending on enclosing variables; depth 4 and vector-valued inner variables (elementwise bodies, sum-reduced) are sampled; depth 2 (exhaustive) and depth 3 (sampled) additionally with every level evaluated in a worker thread started and joined inside the enclosing traced function, and with array-valued variables at every level (elementwise operator counterparts; inner bodies close over enclosing arrays; reference per component). The depth-2 grid and sampled depth-3 nestings once more in four dialects: every variable read and inner derivative value passed through copy.copy / copy.deepcopy, and every elementary function replaced by a user primitive registered through autograd.extend (all operators) or the deprecated .defvjp / .defgrad methods (reverse operators). Towers of depth 3-6 through one elementary function (sinc at 0 / inside its series region / generic, sin, exp) with random forward / reverse assignment, against termwise derivatives of the power series. Reference: independent symbolic differentiator. Non-trivial iff the symbolic reference is finite and non-zero and the inner body mentions its own variable non-linearly. distinct = distinct (depth, operator sequence, mention masks, template, vector flag)."
 ASSUMPTIONS = ["expression grammar is the O-sym op set (+,-,*,/,sin,cos,exp,tanh,pow); random sub-expressions are drawn per case", "reference evaluated in float64; tolerance 1e-9 relative"]
 EXHAUSTIVE = {"C08": "depth 2 and depth 3: all 6^depth operator assignments x all mention subsets x 3 templates"}
 
